@@ -96,6 +96,14 @@ func (P *Program) loadContractDirectives() {
 					key := f[1] + "#" + f[2]
 					P.loopSteps[key] = append(P.loopSteps[key], &LoopInv{Name: name, Fn: w})
 				}
+			case "exit":
+				// predicate over the state at the loop head that must hold whenever an
+				// iteration leaves the loop other than through the loop condition (an early
+				// return / break inside the body): "only then may the walk be given up"
+				if len(f) >= 3 {
+					key := f[1] + "#" + f[2]
+					P.loopExits[key] = append(P.loopExits[key], &LoopInv{Name: name, Fn: w})
+				}
 			}
 		}
 	}
